@@ -142,11 +142,35 @@ def u_update_frame(I, both_uq=False):
     return {'inputs': {}}
 
 
+def replay_update_frame(model, state, ob):
+    """two libraries built directly from one scheme; merging a library with uncertainty data into one must not reach the other, nor the source"""
+    import pgradd.ThermoChem  # noqa
+    from pgradd.GroupAdd.Library import GroupLibrary
+    from . import real
+    src = real.load('GRWSurface2018', fresh=True)
+    fp0 = sorted(src.uq_contents) if src.uq_contents else []
+    with real.quiet():
+        a, b = GroupLibrary(src.scheme), GroupLibrary(src.scheme)
+        a.Update(src)
+        g = next(iter(src))
+        aliased = a[g]['thermochem'] is src[g]['thermochem']
+    bad = []
+    if b.uq_contents:
+        bad.append('a bystander library built from the same scheme now has uncertainty data: %s' % sorted(b.uq_contents))
+    if aliased:
+        bad.append('the merged library shares its correlation objects with the source library')
+    if (sorted(src.uq_contents) if src.uq_contents else []) != fp0:
+        bad.append('the source library was changed')
+    return {'failed': bool(bad), 'input': "a, b = GroupLibrary(s), GroupLibrary(s); a.Update(GroupLibrary.Load('GRWSurface2018'))", 'observed': bad or 'b untouched, no aliasing',
+            'expected': 'b.uq_contents == {} and no shared correlation objects',
+            'script': "import pgradd.ThermoChem\nfrom pgradd.GroupAdd.Library import GroupLibrary\nsrc = GroupLibrary.Load('GRWSurface2018')\na, b = GroupLibrary(src.scheme), GroupLibrary(src.scheme)\na.Update(src)\nprint(b.uq_contents)   # expected {}\n"}
+
+
 UNITS = [
     Unit('GroupLibrary.GetDescriptors [frame]', (LIB, 'GroupLibrary.GetDescriptors'), u_getdescriptors_frame),
     Unit('GroupLibrary.Estimate [frame]', (LIB, 'GroupLibrary.Estimate'), u_estimate_frame),
     Unit('GroupAdditivityScheme.__init__ [frame]', (SCH, 'GroupAdditivityScheme.__init__'), u_scheme_init_defaults),
-    Unit('GroupLibrary.Update [frame]', (LIB, 'GroupLibrary.Update'), u_update_frame),
+    Unit('GroupLibrary.Update [frame]', (LIB, 'GroupLibrary.Update'), u_update_frame, replay_update_frame),
 ]
 # frame ("pure") obligations proved in other properties' units
 for mod, names in ((C01, ('get_CpoR', 'get_HoRT', 'get_SoR')), (C07, ('get_Selements',)), (C08, ('GetQueryMatches',)), (C12, ('qty_loader',))):
